@@ -1351,3 +1351,118 @@ Proof.
   intro H. unfold directed_percolate_network, nm_perc_timing. apply exec_dpn_outer. exact H.
 Qed.
 End DPN.
+
+(* ---------------- the built digraph is a well-formed graph ---------------- *)
+Lemma adde_NoDup e l : NoDup l -> NoDup (adde e l).
+Proof.
+  intro H. unfold adde. destruct (existsb (eqe e) l) eqn:E; [exact H|].
+  assert (~ In e l) as Hn.
+  { intro Hi. assert (existsb (eqe e) l = true) as K by (apply existsb_exists; exists e; split; [exact Hi|apply eqe_spec; reflexivity]).
+    rewrite K in E. discriminate. }
+  clear E. induction l as [|a l IH]; cbn; [constructor; [intros []|constructor]|].
+  inversion H as [|? ? Ha Hl]; subst. constructor.
+  - rewrite in_app_iff. intros [K|[K|[]]]; [exact (Ha K)|subst; apply Hn; left; reflexivity].
+  - apply IH; [exact Hl|intro K; apply Hn; right; exact K].
+Qed.
+
+Lemma pe_edges_nodup w h u v d : NoDup (pg_edges h) -> NoDup (pg_edges (p_add_edge w h u v d)).
+Proof. intro H. cbn. apply adde_NoDup. exact H. Qed.
+
+Lemma timing_edges_nodup dur delay g w : NoDup (pg_edges (nm_perc_timing dur delay g w)).
+Proof.
+  unfold nm_perc_timing.
+  assert (I : forall u du nbrs h, NoDup (pg_edges h) -> NoDup (pg_edges (timing_inner delay w u du nbrs h))).
+  { intros u du. induction nbrs as [|v t IH]; intros h H; [exact H|]. rewrite timing_inner_cons. apply IH.
+    destruct (xle (delay u v) du); [apply pe_edges_nodup; exact H|exact H]. }
+  assert (K : forall todo h, NoDup (pg_edges h) ->
+     NoDup (pg_edges (fold_left (fun h u => timing_inner delay w u (dur u) (gadj g u) (p_add_node w h u (dur u))) todo h))).
+  { induction todo as [|u t IH]; intros h H; [exact H|]. cbn [fold_left]. apply IH. apply I. exact H. }
+  apply K. constructor.
+Qed.
+
+Lemma nm_perc_edges_nodup X Z xi zeta tr g hh : nm_perc X Z xi zeta tr g = Ok hh -> NoDup (pg_edges hh).
+Proof.
+  unfold nm_perc.
+  assert (I : forall u nbrs h h', NoDup (pg_edges h) -> nm_inner X Z xi zeta tr u nbrs h = Ok h' -> NoDup (pg_edges h')).
+  { intros u. induction nbrs as [|v t IH]; intros h h' H E; cbn in E; [inversion E; subst; exact H|].
+    destruct (xi u) as [a|]; [|discriminate]. destruct (zeta v) as [b|]; [|discriminate]. eapply IH; [|exact E].
+    destruct (tr a b); [apply pe_edges_nodup; exact H|exact H]. }
+  assert (K : forall todo h h', NoDup (pg_edges h) -> nm_outer X Z xi zeta tr g todo h = Ok h' -> NoDup (pg_edges h')).
+  { induction todo as [|u t IH]; intros h h' H E; cbn in E; [inversion E; subst; exact H|].
+    destruct (nm_inner X Z xi zeta tr u (gadj g u) (p_add_node false h u None)) as [h1|e] eqn:E1; [|discriminate].
+    cbn in E. eapply IH; [|exact E]. eapply I; [|exact E1]. exact H. }
+  intro E. eapply K; [|exact E]. constructor.
+Qed.
+
+Lemma flat_adj_nodup (es : list (node * node)) u : NoDup es ->
+  NoDup (flat_map (fun e => if N.eqb (fst e) u then [snd e] else if negb true && N.eqb (snd e) u then [fst e] else []) es).
+Proof.
+  induction es as [|[a b] r IH]; intro H; [constructor|]. inversion H as [|? ? Ha Hr]; subst.
+  cbn [flat_map fst snd negb andb]. destruct (N.eqb a u) eqn:E; cbn [app]; [|apply IH; exact Hr].
+  constructor; [|apply IH; exact Hr]. intro K. apply in_flat_map in K. destruct K as [[a' b'] [Hin Hb]].
+  cbn [fst snd negb andb] in Hb. destruct (N.eqb a' u) eqn:E'; [|destruct Hb].
+  destruct Hb as [Hb|[]]. subst b'. apply N.eqb_eq in E, E'. subst. exact (Ha Hin).
+Qed.
+
+Lemma graph_of_wfg nodes es : NoDup nodes -> NoDup es ->
+  (forall u v, In (u, v) es -> In u nodes /\ In v nodes) -> wfg (graph_of nodes es true).
+Proof.
+  intros Hn He Hin. constructor.
+  - exact Hn.
+  - intros u Hu v Hv. apply graph_of_adj_dir in Hv. exact (proj2 (Hin u v Hv)).
+  - intros u Hu v Hv. apply graph_of_pred_dir in Hv. exact (proj1 (Hin v u Hv)).
+  - intros u v Hu Hv. apply graph_of_adj_dir in Hv. apply graph_of_pred_dir. exact Hv.
+  - intros u v Hu Hv. apply graph_of_pred_dir in Hv. apply graph_of_adj_dir. exact Hv.
+  - intros u Hu. cbn [gadj graph_of]. apply flat_adj_nodup. exact He.
+Qed.
+
+Lemma timing_output_wfg dur delay g w : wfg g -> wfg (to_graph (nm_perc_timing dur delay g w)).
+Proof.
+  intro W. destruct (nm_perc_timing_spec dur delay g w W) as [N [S [_ E]]].
+  unfold to_graph. apply graph_of_wfg; [exact N|apply timing_edges_nodup|].
+  intros u v H. apply E in H. destruct H as [Hu [Hv _]]. split; apply S; [exact Hu|apply (wf_adj_in g W u Hu); exact Hv].
+Qed.
+
+Lemma nm_perc_output_wfg X Z xi zeta tr g h : wfg g -> nm_perc X Z xi zeta tr g = Ok h -> wfg (to_graph h).
+Proof.
+  intros W Eh. destruct (nm_perc_spec X Z xi zeta tr g h W Eh) as [N [S [_ E]]].
+  unfold to_graph. apply graph_of_wfg; [exact N|eapply nm_perc_edges_nodup; exact Eh|].
+  intros u v H. apply E in H. destruct H as [Hu [Hv _]]. split; apply S; [exact Hu|apply (wf_adj_in g W u Hu); exact Hv].
+Qed.
+
+(* the statement of the estimator formula for a digraph H and an estimator f of (k, j) *)
+Definition estimator_ok (H : graph) (f : nat -> nat -> result (Q * Q)) : Prop :=
+  exists L, sccs H = Ok L /\ largest L <> [] /\
+  forall k j c u, nth_error (largest L) k = Some c -> nth_error c j = Some u ->
+    is_scc H c /\ (forall c', is_scc H c' -> c' <> [] -> (length c' <= length c)%nat) /\
+    exists a b,
+      f k j = Ok (frac a (length (gnodes H)), frac b (length (gnodes H))) /\
+      card_of (fun x => In x (gnodes H) /\ exists y, In y c /\ fwd H x y) a /\
+      card_of (fun x => exists y, In y c /\ fwd H y x) b /\
+      (0 <= frac a (length (gnodes H)) /\ frac a (length (gnodes H)) <= 1) /\
+      (0 <= frac b (length (gnodes H)) /\ frac b (length (gnodes H)) <= 1).
+
+Lemma estimator_ok_formula g : wfg g -> gnodes g <> [] -> estimator_ok g (estimate_from_dir_perc g).
+Proof. exact (estimator_formula g). Qed.
+
+Lemma nodes_nonempty (a b : list node) : (forall x, In x a <-> In x b) -> b <> [] -> a <> [].
+Proof.
+  intros H Hb E. subst a. destruct b as [|x b]; [contradiction|]. apply (proj2 (H x)). left. reflexivity.
+Qed.
+
+Lemma estimate_with_timing_ok dur delay g : wfg g -> gnodes g <> [] ->
+  estimator_ok (to_graph (nm_perc_timing dur delay g true)) (estimate_nonMarkov_with_timing dur delay g).
+Proof.
+  intros W Hne. unfold estimate_nonMarkov_with_timing. apply estimator_ok_formula; [apply timing_output_wfg; exact W|].
+  destruct (nm_perc_timing_spec dur delay g true W) as [_ [S _]]. cbn [gnodes to_graph graph_of].
+  eapply nodes_nonempty; [exact S|exact Hne].
+Qed.
+
+Lemma estimate_nonMarkov_ok X Z xi zeta tr g h : wfg g -> gnodes g <> [] -> nm_perc X Z xi zeta tr g = Ok h ->
+  estimator_ok (to_graph h) (estimate_nonMarkov X Z xi zeta tr g).
+Proof.
+  intros W Hne Eh. unfold estimate_nonMarkov. rewrite Eh. cbn [rbind].
+  apply estimator_ok_formula; [eapply nm_perc_output_wfg; eassumption|].
+  destruct (nm_perc_spec X Z xi zeta tr g h W Eh) as [_ [S _]]. cbn [gnodes to_graph graph_of].
+  eapply nodes_nonempty; [exact S|exact Hne].
+Qed.
